@@ -19,14 +19,18 @@ func H_recompile(v int) {
 		{"{namespace a}\n/** @param a */\n{template .t}\n{$a}\n{/template}\n{template .p}\nstatic\n{/template}\n", true},
 		{"{namespace a}\n/** @param a */\n{template .t}\n{$a}\n{/template}\n{template .p}\n{$a}\n{/template}\n", false},
 		{"{namespace a}\n/** @param a */\n{template .t}\n{$a}{call .p /}\n{/template}\n{template .p}\n{@param? q: string}\n({$q ?: ''})\n{/template}\n/** */\n{template .z}\nz\n{/template}\n", true},
+		// (entries 10..13 below use extra files; header params with default values come last)
 		// 10..13: calls through {alias a.b}
 		{"{namespace m}\n{alias a.b}\n/** */\n{template .t}\n{call b.c.tmpl}{param q: 1 /}{/call}{call b.tmpl}{param r: 2 /}{/call}\n{/template}\n", true},
 		{"{namespace m}\n{alias a.b}\n/** */\n{template .t}\n{call b.c.tmpl /}\n{/template}\n", false},
 		{"{namespace m}\n{alias a.b}\n/** */\n{template .t}\n{call b.tmpl /}\n{/template}\n", false},
 		{"{namespace m}\n{alias a.b}\n/** */\n{template .t}\n{call b.c.tmpl}{param q: 1 /}{param zz: 2 /}{/call}\n{/template}\n", false},
+		// 14, 15: a header param with a default value is still a required param of a {call}
+		{"{namespace a}\n{template .t}\n{call .p /}\n{/template}\n{template .p}\n{@param greeting: string = 'hi'}\n({$greeting})\n{/template}\n", false},
+		{"{namespace a}\n{template .t}\n{call .p}{param greeting: 'x' /}{/call}\n{/template}\n{template .p}\n{@param greeting: string = 'hi'}\n({$greeting})\n{/template}\n", true},
 	}
 	b := NewBundle().AddTemplateString("f.soy", srcs[v].src)
-	if v >= 10 {
+	if v >= 10 && v <= 13 {
 		// callees reached through an alias: a.b.c.tmpl requires q; a namespace literally called b.c
 		// has a template of the same name without params
 		b.AddTemplateString("lib1.soy", "{namespace a.b.c}\n/** @param q */\n{template .tmpl}\n({$q})\n{/template}\n")
